@@ -65,10 +65,11 @@ class Ctx:
         if REPO != "/repo":
             # sensitivity runs point the harness at a scratch copy of the repository
             hdir = os.path.join(self.work, "harness")
-            shutil.copytree(HARNESS, hdir)
-            txt = open(os.path.join(hdir, "go.mod")).read().replace("=> /repo", "=> " + REPO)
-            open(os.path.join(hdir, "go.mod"), "w").write(txt)
-            shutil.copy(os.path.join(REPO, "go.sum"), os.path.join(hdir, "go.sum"))
+            if not os.path.isdir(hdir):
+                shutil.copytree(HARNESS, hdir)
+                txt = open(os.path.join(hdir, "go.mod")).read().replace("=> /repo", "=> " + REPO)
+                open(os.path.join(hdir, "go.mod"), "w").write(txt)
+                shutil.copy(os.path.join(REPO, "go.sum"), os.path.join(hdir, "go.sum"))
             cwd = hdir
         else:
             cwd = HARNESS
@@ -79,7 +80,7 @@ class Ctx:
             cmd.insert(2, "-race")
         if os.environ.get("VERIF_COVER"):
             # opt-in measurement of the library code the checks execute (GOCOVERDIR = $VERIF_COVER)
-            cmd[2:2] = ["-cover", "-coverpkg=github.com/trustbloc/sidetree-go/..."]
+            cmd[2:2] = ["-cover", "-coverpkg=all"]
         cmd.append(".")
         r = sh(cmd, cwd=cwd, env=goenv(), stdout=subprocess.PIPE, stderr=subprocess.STDOUT, text=True)
         if r.returncode != 0:
@@ -266,6 +267,33 @@ class Ctx:
             self.cov["transitions"] += st["generated"]
         return st, r.stdout
 
+    def tlaps_check(self, module="ApplierProofs.tla", timeout=1500, label=None):
+        """TLAPS: machine-checked proofs about the specification itself (unbounded histories, any alphabet).
+        The proof modules see Ops.tla with the operation alphabet as an uninterpreted CONSTANT (tlapm does
+        not accept the RECURSIVE definition that builds the bounded alphabet; the theorems then hold for
+        every alphabet).  A failure is a problem of the specification / proof, never of the code."""
+        d = os.path.join(self.work, "tlaps")
+        shutil.rmtree(d, ignore_errors=True)
+        os.makedirs(d)
+        for f in ("Applier.tla",):
+            shutil.copy(os.path.join(SPEC, f), d)
+        shutil.copy(os.path.join(SPEC, "proofs", module), d)
+        ops = open(os.path.join(SPEC, "Ops.tla")).read()
+        ops, n1 = re.subn(r"RECURSIVE DevN\(_, _\)\nDevN\(S, n\) == .*?\n", "", ops)
+        ops, n2 = re.subn(r"Alphabet == DevN\(.*?\\cup WindowCube\n", "CONSTANT Alphabet   \\* proofs: ANY alphabet\n", ops, flags=re.S)
+        if n1 != 1 or n2 != 1:
+            raise Infra("cannot abstract the alphabet of Ops.tla for the proof system")
+        open(os.path.join(d, "Ops.tla"), "w").write(ops)
+        t0 = time.time()
+        r = sh(["timeout", str(timeout), "tlapm", "--threads", str(NCPU), module], cwd=d, stdout=subprocess.PIPE,
+               stderr=subprocess.STDOUT, text=True)
+        m = re.search(r"All (\d+) obligations? proved", r.stdout)
+        if not m:
+            raise Infra("TLAPS does not prove %s (a problem of the specification, not of the code):\n%s" % (module, r.stdout[-2500:]))
+        self.cov["stages"].append({"stage": label or ("TLAPS %s" % module), "obligations_proved": int(m.group(1)),
+                                   "wall_s": round(time.time() - t0, 1)})
+        return int(m.group(1))
+
     # ------------------------------------------------------------------ verdict
     def add_violation(self, m):
         self.violations.append(m)
@@ -360,6 +388,11 @@ def main(argv):
         rc = 2
     except subprocess.TimeoutExpired as e:
         print("INFRASTRUCTURE FAILURE (timeout, no verdict) property=%s: %s" % (pid, e), file=sys.stderr)
+        rc = 2
+    except Exception as e:  # noqa: BLE001 - a defect of the driver itself is never a verdict
+        import traceback
+        traceback.print_exc()
+        print("INFRASTRUCTURE FAILURE (driver error, no verdict) property=%s: %r" % (pid, e), file=sys.stderr)
         rc = 2
     finally:
         ctx.cleanup()
